@@ -18,21 +18,16 @@ namespace Mxl.C10
 
 /-! ## the refinement: every read answers what the stateless pointwise specification says -/
 
-/-- excludes exactly finding F-C10-2: a *scaled* producers / consumers request for a
-    variable that has a state- or time-dependent coefficient -/
-def queryOk (res : Res) (m0 : Content) : Query → Bool
-  | .prodCons _ v true _ _ => noDynCoefB res m0 v
-  | _ => true
-
-/-- **Main theorem (partial: F-C10-2 excluded).**  Whatever was read before, in whatever
-    order, and whatever numbers the shared model's parameters hold now: a read that
+/-- **Main theorem (full: no query is excluded since the repair of F-C10-2).**  Whatever was read before, in
+    whatever order, and whatever numbers the shared model's parameters hold now: a read that
     succeeds returns exactly `specRead res m0 q` — row `(i, t)` evaluated pointwise under
-    segment `i`'s parameters, normalised per global row, stacked in order — leaves the
+    segment `i`'s parameters, normalised per global row, stacked in order, scaled producers /
+    consumers multiplied by the coefficient at the row's own state and time — leaves the
     object in a state where this holds again, and hands the shared model back exactly as
     it found it. -/
-theorem C10_read_refines_spec_partial {res : Res} {m0 : Content} {k0 : Cache} {st st' : St}
+theorem C10_read_refines_spec {res : Res} {m0 : Content} {k0 : Cache} {st st' : St}
     {q : Query} {v : View} (wf : WF res m0) (hm0 : createCache m0 = .ok k0)
-    (hi : Inv res m0 st) (hq : queryOk res m0 q = true)
+    (hi : Inv res m0 st)
     (h : read res q st = .ok (v, st')) :
     specRead res m0 q = .ok v ∧ Inv res m0 st' ∧ st'.model = st.model := by
   cases q with
@@ -43,14 +38,10 @@ theorem C10_read_refines_spec_partial {res : Res} {m0 : Content} {k0 : Cache} {s
   | fluxesProp => exact getFluxesV_spec wf hm0 hi h
   | combined => exact getCombinedV_spec wf hm0 hi h
   | rhs n cc => exact getRhsV_spec wf hi h
-  | prodCons prod x sc n cc =>
-    refine getProdConsV_spec wf hm0 hi ?_ h
-    intro hsc
-    subst hsc
-    exact noDynCoef_of_B hq
+  | prodCons prod x sc n cc => exact getProdConsV_spec wf hm0 hi h
   | newY0 => exact getNewY0V_spec hi h
 
-/-! ### the full statement fails on the unchanged code (F-C10-2), with a witness -/
+/-! ### the witness of the former finding F-C10-2 (a state-dependent coefficient), now answered as specified -/
 
 /-- one variable `x` whose coefficient in `r2` is the state `x` itself -/
 def witnessContent : Content :=
@@ -82,41 +73,24 @@ theorem witness_wf : WF witnessRes witnessContent := by
     simp [witnessRes] at ht; subst ht
     decide
 
-/-- **The unrestricted refinement statement is false** of the faithful model: scaled
-    producers of `x` report `r2 · x(0) = 8` in the row where the specification (flux times
-    the coefficient at that row's state) says `r2 · x = 16`. -/
-theorem C10_read_refines_spec_fails :
-    ∃ (res : Res) (m0 : Content) (q : Query) (st st' : St) (v : View),
-      WF res m0 ∧ (∃ k0, createCache m0 = .ok k0) ∧ Inv res m0 st ∧
-      read res q st = .ok (v, st') ∧ specRead res m0 q ≠ .ok v := by
-  have hM : (match read witnessRes (.prodCons true "x" true .none true) { model := witnessContent } with
+/-- the former witness of F-C10-2: scaled producers of `x` (coefficient = the state `x` itself) report, in the row
+    where `x = 2`, the flux times the coefficient AT THAT ROW, `8 · 2 = 16` — in the model and in the
+    specification (the pinned code multiplied by the coefficient at the model's initial state: 8) -/
+theorem C10_scaled_uses_row_coefficient :
+    (match read witnessRes (.prodCons true "x" true .none true) { model := witnessContent } with
       | .ok (v, _) => viewEntry v
-      | .error _ => none) = some 8 := by decide +kernel
-  have hS : (match specRead witnessRes witnessContent (.prodCons true "x" true .none true) with
+      | .error _ => none) = some 16 ∧
+    (match specRead witnessRes witnessContent (.prodCons true "x" true .none true) with
       | .ok v => viewEntry v
-      | .error _ => none) = some 16 := by decide +kernel
-  have hC : (createCache witnessContent).toOption.isSome = true := by decide +kernel
-  match hr : read witnessRes (.prodCons true "x" true .none true) { model := witnessContent } with
-  | .error e => rw [hr] at hM; cases hM
-  | .ok (v, st') =>
-    refine ⟨witnessRes, witnessContent, _, _, st', v, witness_wf, ?_, Inv.fresh _ _, hr, ?_⟩
-    · match hc : createCache witnessContent with
-      | .ok k0 => exact ⟨k0, rfl⟩
-      | .error e => rw [hc] at hC; cases hC
-    · intro hs
-      rw [hr] at hM
-      rw [hs] at hS
-      simp only at hM hS
-      rw [hM] at hS
-      exact absurd hS (by decide)
+      | .error _ => none) = some 16 := by
+  constructor <;> decide +kernel
 
-/-- non-vacuity: on the same model the hypothesis of the partial theorem holds for the
-    scaled consumers of `y` (constant coefficient `-1`), and that read succeeds -/
-example : queryOk witnessRes witnessContent (.prodCons false "y" true (.list [2, 4]) true) = true ∧
+/-- non-vacuity: the scaled consumers of `y` (constant coefficient `-1`) on the same model: the read succeeds -/
+example :
     (match read witnessRes (.prodCons false "y" true (.list [2, 4]) true) { model := witnessContent } with
       | .ok (v, _) => viewEntry v
       | .error _ => none) = some 2 := by
-  constructor <;> decide +kernel
+  decide +kernel
 
 /-- non-vacuity of the main theorem on a two-segment result with a parameter change
     between the segments (`k = 2`, then `k = -3`), read after the owner of the model set
@@ -126,19 +100,18 @@ example :
       { rawVars := [[(0, [("x", 1), ("y", 3)])], [(1, [("x", 5), ("y", 1)]), (2, [("x", 2), ("y", 4)])]],
         rawPars := [[("k", 2)], [("k", -3)]] }
     let st : St := { model := { witnessContent with pars := [("k", .plain 5)] } }
-    queryOk res witnessContent (.rhs .none true) = true ∧
     (match read res (.rhs .none true) st with
       | .ok (.frame t, st') => (t.getLast?.map (·.2), st'.model.pars.map (·.1))
       | _ => (none, [])) = (some [("x", -24), ("y", 12)], ["k"]) ∧
     (match specRead res witnessContent (.rhs .none true) with
       | .ok (.frame t) => t.getLast?.map (·.2)
       | _ => none) = some [("x", -24), ("y", 12)] := by
-  refine ⟨rfl, ?_, ?_⟩ <;> decide +kernel
+  refine ⟨?_, ?_⟩ <;> decide +kernel
 
 /-! ## reading repeatedly, in any order, after any parameter change -/
 
 def eventOk (res : Res) (m0 : Content) : Event → Prop
-  | .read q => queryOk res m0 q = true
+  | .read _ => True
   | .setPars p => PlainOnly m0 p
   | .modelPars => True
 
@@ -161,12 +134,11 @@ theorem C10_idempotent {res : Res} {m0 : Content} {k0 : Cache} (wf : WF res m0)
     have hrest : ∀ e' ∈ rest, eventOk res m0 e' := fun e' he' => hok e' (by simp [he'])
     cases e with
     | read q =>
-      have hq : queryOk res m0 q = true := hok (.read q) (by simp)
       simp only [runHistory, specHistory]
       split
       · exact .cons (fun v hv => by cases hv) (ih st hi hrest)
       · rename_i v st' hr
-        obtain ⟨hs, hi', hm⟩ := C10_read_refines_spec_partial wf hm0 hi hq hr
+        obtain ⟨hs, hi', hm⟩ := C10_read_refines_spec wf hm0 hi hr
         have := ih st' hi' hrest
         rw [hm] at this
         exact .cons (fun v' hv' => by cases hv'; exact hs) this
@@ -194,11 +166,11 @@ theorem C10_read_leaves_model_untouched {res : Res} {q : Query} {st st' : St} {v
     histories of the object were -/
 theorem C10_same_answer_any_history {res : Res} {m0 : Content} {k0 : Cache} {q : Query}
     {st1 st1' st2 st2' : St} {v1 v2 : View} (wf : WF res m0) (hm0 : createCache m0 = .ok k0)
-    (hq : queryOk res m0 q = true) (h1 : Inv res m0 st1) (h2 : Inv res m0 st2)
+    (h1 : Inv res m0 st1) (h2 : Inv res m0 st2)
     (r1 : read res q st1 = .ok (v1, st1')) (r2 : read res q st2 = .ok (v2, st2')) :
     v1 = v2 := by
-  have a := (C10_read_refines_spec_partial wf hm0 h1 hq r1).1
-  have b := (C10_read_refines_spec_partial wf hm0 h2 hq r2).1
+  have a := (C10_read_refines_spec wf hm0 h1 r1).1
+  have b := (C10_read_refines_spec wf hm0 h2 r2).1
   rw [a] at b
   cases b
   rfl
@@ -438,7 +410,7 @@ theorem C10_concat_is_stack_prodcons {res : Res} {prod : Bool} {x : Name} {sc : 
             | ok sel =>
               simp only
               cases (if sc = true then
-                  scaleLoop x (pickNames prod s0) (if prod = true then 1 else -1) st1.model sel (p0 :: rest)
+                  scaleLoop x (pickNames prod s0) (if prod = true then 1 else -1) st1.model sel res.rawVars (p0 :: rest)
                 else Except.ok (sel, st1.model)) with
               | error e => simp
               | ok z =>
